@@ -19,11 +19,15 @@ func GenIterScript(r *Rng, hist map[string]int) []string {
 	add("dir db")
 	add("open %s", c)
 	live := map[string]bool{}
+	// three-letter alphabets: plain letters, or the extreme byte values (prefixes ending in 0xff have no
+	// successor of the same length; 0x00 is the smallest extension of a key)
+	alpha := [][]byte{[]byte("abc"), []byte("abc"), {0x00, 0x7f, 0xff}, {0xfe, 0xff, 0x00}, {'a', 0xff, 'b'}}[r.Intn(5)]
+	hist[fmt.Sprintf("iter_alphabet_%x", alpha)]++
 	randKey := func() []byte {
 		n := 1 + r.Intn(4)
 		b := make([]byte, n)
 		for i := range b {
-			b[i] = byte('a' + r.Intn(3))
+			b[i] = alpha[r.Intn(3)]
 		}
 		return b
 	}
@@ -48,7 +52,8 @@ func GenIterScript(r *Rng, hist map[string]int) []string {
 	rounds := 1 + r.Intn(3)
 	for round := 0; round < rounds; round++ {
 		rev := r.Intn(2)
-		prefix := [][]byte{nil, nil, []byte("a"), []byte("ab"), []byte("b"), []byte("ca"), []byte("abc")}[r.Intn(7)]
+		a, b, c := alpha[0], alpha[1], alpha[2]
+		prefix := [][]byte{nil, nil, {a}, {a, b}, {b}, {c, a}, {a, b, c}, {b, b}, {c}, {c, c}}[r.Intn(10)]
 		var snap [][]byte
 		for k := range live {
 			if bytes.HasPrefix([]byte(k), prefix) {
@@ -95,7 +100,7 @@ func GenIterScript(r *Rng, hist map[string]int) []string {
 					case 1:
 						t = snap[cur+r.Intn(len(snap)-cur)]
 					case 2: // between / beyond keys: extend a later key
-						t = append(append([]byte(nil), snap[cur+r.Intn(len(snap)-cur)]...), byte('a'+r.Intn(3)))
+						t = append(append([]byte(nil), snap[cur+r.Intn(len(snap)-cur)]...), alpha[r.Intn(3)])
 						if rev == 1 && bytes.Compare(t, snap[cur]) > 0 {
 							t = snap[cur]
 						}
